@@ -215,6 +215,28 @@ func ctxHarness(rc *RunCtx) {
 						seq++
 						op.ret = seq
 						hist = append(hist, op)
+					case k == 5 && tp.Intn("serialise", 2) == 1: // snapshot taken by serialising the context (what a call does)
+						op := ctxOp{client: t, kind: "all"}
+						seq++
+						op.call = seq
+						buf := thrift.NewTMemoryBuffer()
+						werr := pf.GetProtocol(buf).WriteRequestHeader(shared)
+						seq++
+						op.ret = seq
+						if werr != nil {
+							rc.Violate("C17", "context-serialised-badly", "protocol.go", "WriteRequestHeader of a context under concurrent use failed: "+werr.Error())
+							break
+						}
+						f, derr := DecodeBody(append([]byte(nil), buf.Bytes()...))
+						if derr != nil {
+							rc.Violate("C17", "context-serialised-badly", "protocol.go", fmt.Sprintf("the header block written for a context under concurrent use does not parse: %v (% x)", derr, buf.Bytes()[:min(buf.Len(), 48)]))
+							break
+						}
+						if v, bogus := f.Headers[""]; bogus {
+							rc.Violate("C17", "context-serialised-badly", "protocol.go", fmt.Sprintf("the header block written for a context under concurrent use holds an entry with an empty name (value %q): size and content were taken at different moments", v))
+						}
+						op.snapshot = f.Headers
+						hist = append(hist, op)
 					case k == 5: // snapshot
 						op := ctxOp{client: t, kind: "all"}
 						seq++
@@ -349,7 +371,12 @@ func ctxHarness(rc *RunCtx) {
 							w := plainCtx{frugal.NewFContext("w")}
 							noteOpid(w, fmt.Sprintf("task%d/wrapped#%d", t, i))
 							w.AddRequestHeader("wk", "wv")
+							w.AddRequestHeader("_trace", "tv")
+							w.SetTimeout(1234 * time.Millisecond)
 							wc := frugal.Clone(w)
+							if v, _ := wc.RequestHeader("_trace"); v != "tv" || wc.Timeout() != 1234*time.Millisecond || wc.CorrelationID() != w.CorrelationID() {
+								rc.Violate("C17", "clone-not-equal", "Clone(ctx) of a plain FContext", fmt.Sprintf("clone has _trace=%q timeout=%v cid=%q; original _trace=tv timeout=1.234s cid=%q", v, wc.Timeout(), wc.CorrelationID(), w.CorrelationID()))
+							}
 							noteOpid(wc, fmt.Sprintf("task%d/clone-of-wrapped#%d", t, i))
 							if v, _ := wc.RequestHeader("wk"); v != "wv" {
 								rc.Violate("C17", "clone-not-equal", "Clone(ctx) of a plain FContext", "header not copied")
